@@ -346,6 +346,7 @@ func (h *H) AddrsOfKeystore(id string) ([]*AddrInfo, error) {
 // ImportMnemonic restores a wallet from its mnemonic in the running instance and emits W import.
 // num is the model's wallet number (the original's, for a twin).
 func (h *H) ImportMnemonic(num int, mnemonic, pass string, passID int) (*WInfo, error) {
+	h.dropRetired(num)
 	ws, err := h.W.WM.ImportWalletWithMnemonic(&keystore.WalletParams{
 		Version: keystore.KeystoreVersion0, Mnemonic: mnemonic, PrivatePassphrase: []byte(pass),
 		AddressGapLimit: h.W.Cfg.Wallet.Settings.AddressGapLimit}) // as api/wallet_service.go passes it
@@ -358,6 +359,7 @@ func (h *H) ImportMnemonic(num int, mnemonic, pass string, passID int) (*WInfo, 
 
 // ImportKeystoreJSON restores a wallet from an exported keystore.
 func (h *H) ImportKeystoreJSON(num int, js, pass string, passID int) (*WInfo, error) {
+	h.dropRetired(num)
 	ws, err := h.W.WM.ImportWallet(js, pass)
 	if err != nil {
 		h.emit("W import %d %d err 0", num, passID)
@@ -557,8 +559,39 @@ func (h *H) RetireWallet(wi *WInfo) {
 		}
 	}
 	for _, a := range wi.Addrs {
-		h.Strangers = append(h.Strangers, witnessScript(a.ShBytes))
+		sc := witnessScript(a.ShBytes)
+		h.Strangers = append(h.Strangers, sc)
+		retiredScripts[h] = append(retiredScripts[h], retiredScript{wi.Num, sc})
 	}
+}
+
+// retiredScripts remembers which stranger scripts are addresses of a retired wallet (by model number).
+// When the same wallet is restored again (ImportMnemonic / ImportKeystoreJSON with that number), they stop
+// being payees: the restored wallet only knows the addresses its discovery scan finds, and a payment to a
+// not-yet-reissued address of it would break the environment assumption "an address is issued before it is
+// paid" (the wallet would issue that address later and rightly know nothing of the earlier payment).
+type retiredScript struct {
+	num int
+	sc  []byte
+}
+
+var retiredScripts = map[*H][]retiredScript{}
+
+func (h *H) dropRetired(num int) {
+	var keep []retiredScript
+	for _, r := range retiredScripts[h] {
+		if r.num != num {
+			keep = append(keep, r)
+			continue
+		}
+		for i, s := range h.Strangers {
+			if bytes.Equal(s, r.sc) && len(h.Strangers) > 1 {
+				h.Strangers = append(h.Strangers[:i:i], h.Strangers[i+1:]...)
+				break
+			}
+		}
+	}
+	retiredScripts[h] = keep
 }
 
 // AdoptWallet puts a wallet (with its model number already set) into the generator's list.
